@@ -1216,7 +1216,7 @@ def gen_c10(tier, rng):
     pairs = substring_pairs(rng, quick)
     # keep the pairs that exercise heuristics: needles >= 2 bytes
     pairs = [(x, h) for (x, h) in pairs if len(x) >= 2]
-    step = 9 if quick else 2
+    step = 9 if quick else 5
     extra_rankers = seeded_rankers(rng, 1 if quick else 4)
     k = 0
     for (x, h) in pairs[::step]:
